@@ -29,6 +29,7 @@ type Job struct {
 	File   string  `json:"file"`
 	Cases  []Case  `json:"cases"`
 	Pairs  bool    `json:"pairs"`  // after each single-deviation case, enumerate second deviations adaptively
+	MinK2  []int   `json:"min_k2"` // per case: smallest position of a second deviation
 	Resume *[2]int `json:"resume"` // skip every cursor <= Resume (single index, pair index; -1 = the single itself)
 }
 
@@ -114,12 +115,12 @@ func workerJob(raw json.RawMessage) any {
 			poisoned = true
 			return JobOut{Stopped: &cur}
 		}
-		if !job.Pairs || len(cs.Devs) != 1 {
+		if !job.Pairs || len(cs.Devs) != 1 || !devByName[cs.Devs[0].Name].pair {
 			continue
 		}
 		flow := flowByName(cs.Flow)
 		pi := 0
-		for k2 := cs.Devs[0].Pos + 1; k2 < len(res.Seq); k2++ {
+		for k2 := max(cs.Devs[0].Pos+1, job.MinK2[si]); k2 < len(res.Seq); k2++ {
 			for _, dd := range devsFor(res.Seq[k2], flow, true) {
 				pc := [2]int{si, pi}
 				pi++
@@ -343,10 +344,18 @@ func panicLine(stderr string) string {
 	return tail(stderr, 300)
 }
 
-func chunk(cases []Case, n int, pairs bool) []Job {
+func chunk(cases []Case, n int, pairs bool, minK2 func(Case) int) []Job {
 	var jobs []Job
 	for i := 0; i < len(cases); i += n {
-		jobs = append(jobs, Job{Cases: cases[i:min(i+n, len(cases))], Pairs: pairs})
+		j := Job{Cases: cases[i:min(i+n, len(cases))], Pairs: pairs}
+		for _, c := range j.Cases {
+			k := 0
+			if minK2 != nil {
+				k = minK2(c)
+			}
+			j.MinK2 = append(j.MinK2, k)
+		}
+		jobs = append(jobs, j)
 	}
 	return jobs
 }
@@ -362,8 +371,10 @@ func main() {
 		"falls back to TCP on its timer); play+pause TCP/UDP; announce+setup+record TCP(+pause)/UDP; back channel over TCP. Positions = every request the scripted server " +
 		"answers in the conversation (TEARDOWN and timer-driven keep-alives are answered correctly and are not positions). Singles: every position of the control " +
 		"conversation x every deviation of the menu applicable to the request at that position (status codes incl. redirect chains <=3, CSeq, Session, Transport, Content-Base, " +
-		"SDP incl. control attributes with invalid escapes, delivery: drop/duplicate/delay/inject request or frame/close/silence/Content-Length). Pairs (thorough): for every single, " +
-		"every later position of the conversation observed under that single x every applicable deviation of the reduced pair menu. " +
+		"SDP incl. control attributes with invalid escapes, delivery: drop/duplicate/delay/inject request or frame/close/silence/Content-Length). Pairs (thorough): both deviations from the " +
+		"reduced pair menu (one or more representatives of every class); for every such single, every later position of the conversation observed under that single x every applicable " +
+		"deviation of the pair menu; in a flow that extends another flow (pause-* extends play-*, play-auto-switch extends play-auto) the second deviation lies beyond the base flow's " +
+		"conversation (pairs inside the shared prefix are run in the base flow). " +
 		"non-trivial = every deviation of the case was actually applied to a response; distinct = (flow, credentials, deviations with positions)")
 	run.Assume("the oracle reads only: whether each API call returned, process liveness, the goroutine set (goroutines with library frames and no harness frame, minus those present before the execution) and the in-memory network's registry after Close")
 	run.Assume("an API call may take up to 60 s of virtual time (2x(ReadTimeout+WriteTimeout) plus two delayed responses) before it counts as hanging; which value or error it returns is not judged")
@@ -413,7 +424,7 @@ func main() {
 	for attempt := 1; ; attempt++ {
 		p.controls = map[string]*ExecResult{}
 		p.cands = nil
-		p.execute(chunk(controls, 4, false), 3*time.Minute)
+		p.execute(chunk(controls, 4, false, nil), 3*time.Minute)
 		bad := ""
 		for _, c := range controls {
 			r := p.controls[c.key()]
@@ -463,9 +474,17 @@ func main() {
 	if run.Thorough() {
 		// interleave flows so that every job has a similar mix
 		sort.SliceStable(singles, func(i, j int) bool { return singles[i].Devs[0].Name < singles[j].Devs[0].Name })
-		p.execute(chunk(singles, 12, true), 20*time.Minute)
+		// a flow that extends another flow shares its prefix: pairs lying entirely inside the shared prefix run in the base flow
+		minK2 := func(c Case) int {
+			f := flowByName(c.Flow)
+			if f.Base == "" {
+				return 0
+			}
+			return len(p.controls[Case{Flow: f.Base, Creds: c.Creds}.key()].Seq)
+		}
+		p.execute(chunk(singles, 12, true, minK2), 20*time.Minute)
 	} else {
-		p.execute(chunk(singles, 60, false), 5*time.Minute)
+		p.execute(chunk(singles, 60, false, nil), 5*time.Minute)
 	}
 	if len(p.harness) > 0 {
 		run.Fatal("harness errors: %v", p.harness[:min(5, len(p.harness))])
